@@ -540,7 +540,7 @@ def _large_aggregate(rng, name):
     from scipy.spatial.transform import Rotation as R
 
     s = getattr(g.LatticeSystem, name)
-    n = int(rng.integers(726, 780))
+    n = int(rng.integers(726, 780)) if rng.random() < 0.6 else int(rng.integers(1030, 1080))
     O = np.concatenate([R.random(n - 26, random_state=int(rng.integers(1 << 30))).as_matrix(), np.array([R.random(random_state=3).as_matrix()] * 26)])
     out = _hist_vs_reference(O, s, name + f" (n={n})")
     m = float(D.misorientation_index(O, s))
